@@ -171,6 +171,8 @@ pub enum Op {
     RenameCol { from: String, to: String },
     /// alter_columns(cast_to): the column keeps its name and position, its data is rewritten
     CastCol { name: String, to: Ty },
+    /// Dataset::merge: left-join a new column `name` = k * mul + 1 for the listed keys (NULL elsewhere)
+    MergeCols { name: String, keys: Vec<i64>, mul: i64 },
     UpdateConfig { key: String, value: Option<String> },
     Restore { version: u64 },
     CreateVectorIndex { partitions: usize, cosine: bool },
@@ -200,6 +202,7 @@ impl Op {
             Self::DropCol { .. } => "drop_col",
             Self::RenameCol { .. } => "rename_col",
             Self::CastCol { .. } => "cast_col",
+            Self::MergeCols { .. } => "merge_cols",
             Self::UpdateConfig { .. } => "update_config",
             Self::Restore { .. } => "restore",
             Self::CreateVectorIndex { .. } => "create_vector_index",
@@ -242,6 +245,7 @@ impl Op {
             Self::DropCol { name } => format!("drop_column({})", name),
             Self::RenameCol { from, to } => format!("rename_column({} -> {})", from, to),
             Self::CastCol { name, to } => format!("alter_column({} cast to {:?})", name, to),
+            Self::MergeCols { name, keys, mul } => format!("merge_columns({} = k * {} + 1 for {} keys, join on k)", name, mul, keys.len()),
             Self::UpdateConfig { key, value } => format!("update_config({}={:?})", key, value),
             Self::Restore { version } => format!("restore({})", version),
             Self::CreateVectorIndex { partitions, cosine } => format!("create_index(vec, IVF_FLAT, partitions={}, metric={})", partitions, if *cosine { "cosine" } else { "l2" }),
@@ -369,6 +373,17 @@ pub async fn exec_op(ctx: &Ctx, ds: &mut Dataset, st: &TableState, op: &Op) -> R
         Op::RenameCol { from, to } => {
             ds.alter_columns(&[lance::dataset::ColumnAlteration::new(from.clone()).rename(to.clone())]).await
         }
+        Op::MergeCols { name, keys, mul } => {
+            let schema = Arc::new(arrow_schema::Schema::new(vec![
+                arrow_schema::Field::new("k", arrow_schema::DataType::Int64, false),
+                arrow_schema::Field::new(name.as_str(), arrow_schema::DataType::Int64, true),
+            ]));
+            let kcol = arrow_array::Int64Array::from(keys.clone());
+            let vcol = arrow_array::Int64Array::from(keys.iter().map(|k| k * mul + 1).collect::<Vec<i64>>());
+            let batch = RecordBatch::try_new(schema.clone(), vec![Arc::new(kcol), Arc::new(vcol)])?;
+            let reader = RecordBatchIterator::new(vec![Ok(batch)], schema);
+            ds.merge(reader, "k", "k").await
+        }
         Op::CastCol { name, to } => {
             ds.alter_columns(&[lance::dataset::ColumnAlteration::new(name.clone()).cast_to(to.arrow())]).await
         }
@@ -486,6 +501,21 @@ pub fn model_apply(st: &mut TableState, op: &Op, history: &BTreeMap<u64, TableSt
                 r.remove(i);
             }
             st.indices.retain(|ix| &ix.column != name);
+            Ok(())
+        }
+        Op::MergeCols { name, keys, mul } => {
+            if st.col(name).is_some() {
+                return Err("column exists".into());
+            }
+            let ki = st.col("k").ok_or("no key column")?;
+            st.cols.push(ColDef { name: name.clone(), ty: Ty::I64, nullable: true });
+            for r in st.rows.iter_mut() {
+                let v = match &r[ki] {
+                    Val::I(k) if keys.contains(k) => Val::I(k * mul + 1),
+                    _ => Val::Null,
+                };
+                r.push(v);
+            }
             Ok(())
         }
         Op::CastCol { name, to } => {
